@@ -1,7 +1,7 @@
 SPECIFICATION SpecSloppy
 CONSTANTS
   Inits = {"same"}
-  Targets <- AllTargets
+  Targets <- KeyTargets
   Statuses = {302}
   Forms = {"abs"}
   Methods = {"GET"}
